@@ -191,6 +191,27 @@ func genPlanC01(t *rapid.T) Plan {
 	p.Seg, p.Reset = genSeg(t)
 	p.PipeConnect = rapid.IntRange(0, 5).Draw(t, "pipeconnect") == 0
 	p.InprocErr = p.NInproc > 0 && rapid.IntRange(0, 3).Draw(t, "inprocerr") == 0
+	p.IDPool = rapid.SampledFrom([]int{0, 0, 0, 1, 2, 3}).Draw(t, "idpool")
+	if rapid.IntRange(0, 9).Draw(t, "steady") == 0 {
+		// a steady publisher: one client completes 17-40 QoS 1/2 exchanges one after the other on one
+		// connection, numbering them from a pool of 1-3 identifiers, towards a subscriber of the topic
+		pc := rapid.IntRange(0, p.NClients-1).Draw(t, "steadyc")
+		sc := rapid.IntRange(0, p.NClients-1).Draw(t, "steadysub")
+		if p.IDPool == 0 {
+			p.IDPool = rapid.IntRange(1, 3).Draw(t, "steadypool")
+		}
+		ops := []Op{{K: "sub", C: sc, Filters: []string{"a/#"}, QoS: []byte{byte(rapid.IntRange(0, 2).Draw(t, "steadysq"))}}}
+		q2 := rapid.IntRange(0, 2).Draw(t, "steadyq2") > 0
+		for j, m := 0, rapid.IntRange(17, 40).Draw(t, "steadyn"); j < m; j++ {
+			pq := byte(2)
+			if !q2 {
+				pq = byte(rapid.IntRange(1, 2).Draw(t, "steadypq"))
+			}
+			ops = append(ops, Op{K: "pub", C: pc, Topic: "a/b", PQ: pq, Size: 8})
+		}
+		at := rapid.IntRange(0, len(p.Ops)).Draw(t, "steadyat")
+		p.Ops = append(p.Ops[:at:at], append(ops, p.Ops[at:]...)...)
+	}
 	return p
 }
 
@@ -303,6 +324,7 @@ func genPlanC07(t *rapid.T) Plan {
 	p.Seg, p.Reset = genSeg(t)
 	p.PipeConnect = rapid.IntRange(0, 5).Draw(t, "pipeconnect") == 0
 	p.InprocErr = p.NInproc > 0 && rapid.IntRange(0, 3).Draw(t, "inprocerr") == 0
+	p.IDPool = rapid.SampledFrom([]int{0, 0, 0, 1, 2, 3}).Draw(t, "idpool")
 	return p
 }
 
@@ -344,6 +366,13 @@ func genPlanC08(t *rapid.T) Plan {
 			} else if rapid.Bool().Draw(t, "wild") {
 				op.Filters[0] = rapid.SampledFrom([]string{"#", "a/#", "+", "a/+", "+/b", "+/+/cc", "a/b/#"}).Draw(t, "wf")
 			}
+			if rapid.IntRange(0, 4).Draw(t, "refused") == 0 {
+				// a filter the broker refuses (0x80) in front of, or among, the granted ones
+				at := rapid.IntRange(0, len(op.Filters)-1).Draw(t, "refusedat")
+				bad := rapid.SampledFrom([]string{"a/#/b", "a+", "#x", "b/+x"}).Draw(t, "badf")
+				op.Filters = append(op.Filters[:at:at], append([]string{bad}, op.Filters[at:]...)...)
+				op.QoS = append(op.QoS[:at:at], append([]byte{byte(rapid.IntRange(0, 2).Draw(t, "badq"))}, op.QoS[at:]...)...)
+			}
 			p.Ops = append(p.Ops, op)
 		case k < 16:
 			p.Ops = append(p.Ops, Op{K: "filler", C: rapid.IntRange(0, p.NClients-1).Draw(t, "fc"), Bytes: rapid.SampledFrom([]int{8000, 20000, 50000}).Draw(t, "fbytes")})
@@ -358,6 +387,7 @@ func genPlanC08(t *rapid.T) Plan {
 	p.Seg, p.Reset = genSeg(t)
 	p.PipeConnect = rapid.IntRange(0, 5).Draw(t, "pipeconnect") == 0
 	p.InprocErr = p.NInproc > 0 && rapid.IntRange(0, 3).Draw(t, "inprocerr") == 0
+	p.IDPool = rapid.SampledFrom([]int{0, 0, 0, 1, 2, 3}).Draw(t, "idpool")
 	return p
 }
 
@@ -462,6 +492,7 @@ func genPlanC10(t *rapid.T) Plan {
 	p.Seg, p.Reset = genSeg(t)
 	p.PipeConnect = rapid.IntRange(0, 5).Draw(t, "pipeconnect") == 0
 	p.InprocErr = p.NInproc > 0 && rapid.IntRange(0, 3).Draw(t, "inprocerr") == 0
+	p.IDPool = rapid.SampledFrom([]int{0, 0, 0, 1, 2, 3}).Draw(t, "idpool")
 	return p
 }
 
@@ -528,6 +559,7 @@ func genPlanC09(t *rapid.T) Plan {
 	p.Seg, p.Reset = genSeg(t)
 	p.PipeConnect = rapid.IntRange(0, 5).Draw(t, "pipeconnect") == 0
 	p.InprocErr = p.NInproc > 0 && rapid.IntRange(0, 3).Draw(t, "inprocerr") == 0
+	p.IDPool = rapid.SampledFrom([]int{0, 0, 0, 1, 2, 3}).Draw(t, "idpool")
 	return p
 }
 
